@@ -131,7 +131,7 @@ func Delete%[1]ssByIDs(tx DB, ids ...%[2]s) ([]%[2]s, error) {
 	for _, key := range ta.ForeignKeys() {
 		fieldName := key.F.Field.Name()
 		columnName := sqlColumnName(key.F)
-		varName := gen.ToLowerFirst(fieldName)
+		varName := paramName(fieldName)
 
 		keyTypeName := ctx.typeName(key.TargetIDType())
 
